@@ -184,6 +184,10 @@ func vh_cache_resolution() {
 	vassert(w.IsAsserted() && w2.IsAsserted(), "every waiter is woken")
 	_, _, err3 := c.get(k, res, "", nil, &w)
 	vassert(err3 == tcpip.ErrNoLinkAddress, "afterwards the lookup fails with a no-link-address error")
+	// a failed entry ages out like any other: after its expiry a new lookup starts a new resolution
+	c.cache[k].expiration = time.Now().Add(-time.Second)
+	_, ch4, err4 := c.get(k, res, "", nil, &w)
+	vassert(err4 == tcpip.ErrWouldBlock && ch4 != nil && vghostGet("go") == 2, "once the failed entry has expired the next lookup resolves again (a failure is not remembered forever)")
 	vreach("failed")
 }
 
